@@ -612,7 +612,7 @@ run_case (int case_timeout)
 	      printf ("%serr code=%d msglen=%d\n", prefix, G_ERRCODE (handles[h]), (int) strlen (m));
 	    }
 	  else printf ("%sbadop\n", prefix);
-	  printf ("%slib allocs=%ld live=%ld fired=%ld\n", prefix, lib_allocs, lib_live_blocks, fail_fired);
+	  printf ("%slib allocs=%ld live=%ld fired=%ld bytes=%ld\n", prefix, lib_allocs, lib_live_blocks, fail_fired, lib_bytes_requested);
 	  fflush (stdout);
 	}
       free (l);
